@@ -23,7 +23,7 @@ def run(ctx):
     _world.spec_to_code(ctx, "World_MBT_c04.cfg", sample=3000 if q else 40000, probe=probe)
     n = 300 if q else 3000
     for kinds, label in ((("plain",), "plain environment"), (("space",), "continuous worlds"), (("grid", "line", "grid2d"), "grid worlds")):
-        runs = _world.random_runs(ctx, n, kinds=kinds, mods="clean", length=50, weights=W, n_ids=3)
+        runs = _world.random_runs(ctx, n, kinds=kinds, mods="clean", length=50, weights=W, n_ids=3, guests=True, late_install=True)
         _world.validate_runs(ctx, runs, f"random add/remove/lookup histories with colliding ids and injected errors, {label}")
     if not q:
         from .. import suite
